@@ -27,6 +27,9 @@ VARIANTS = {
                                     " -D_GLIBCXX_ASSERTIONS -D_GLIBCXX_SANITIZE_VECTOR"),
     "tsan": dict(cxx="g++", cc="gcc", flags="-O1 -g -fsanitize=thread"),
     "cov": dict(cxx="g++", cc="gcc", flags="-O0 -g --coverage"),
+    # libstdc++ debug mode: checked iterators and containers (dereferencing end(), invalidated iterators, out-of-range operator[]).
+    # It changes the layout of the containers, so a harness of this variant compiles the library sources it needs itself (link_bx=False)
+    "stldbg": dict(cxx="g++", cc="gcc", flags="-O1 -g -fno-omit-frame-pointer -D_GLIBCXX_DEBUG -D_GLIBCXX_DEBUG_PEDANTIC"),
     "fuzz": dict(cxx="clang++-14", cc="clang-14",
                  flags="-O1 -g -fno-omit-frame-pointer -fsanitize=fuzzer-no-link,address,undefined"
                        " -fno-sanitize=object-size -fno-sanitize-recover=all -D_GLIBCXX_ASSERTIONS"),
